@@ -28,6 +28,8 @@ type Finding struct {
 	Kind       string // finding | fixed
 	Property   string
 	Obligation string // prefix match on obligation name
+	Region     string // spec expression over the function's inputs delimiting the finding
+	RegionE    Expr
 	What       string
 	Raw        string
 }
@@ -61,6 +63,17 @@ func loadFindings(path string) []Finding {
 			rest := l[k+len("obligation=\""):]
 			if e := strings.Index(rest, "\""); e >= 0 {
 				f.Obligation = rest[:e]
+			}
+		}
+		if k := strings.Index(l, "region=\""); k >= 0 {
+			rest := l[k+len("region=\""):]
+			if e := strings.Index(rest, "\""); e >= 0 {
+				f.Region = rest[:e]
+				if ex, err := parseExpr(f.Region); err == nil {
+					f.RegionE = ex
+				} else {
+					fmt.Fprintln(os.Stderr, "KNOWN_FINDINGS: bad region:", err)
+				}
 			}
 		}
 		if k := strings.Index(l, "what="); k >= 0 {
@@ -103,6 +116,7 @@ func (e *Engine) checkProperty(verif, prop, tier string, t0 time.Time) int {
 		return 3
 	}
 	findings := loadFindings(filepath.Join(verif, "KNOWN_FINDINGS.txt"))
+	e.findings = findings
 
 	names := append([]string{}, p.Units...)
 	missing := []string{}
@@ -142,7 +156,7 @@ func (e *Engine) checkProperty(verif, prop, tier string, t0 time.Time) int {
 	report := func(obName, unit, status, detail, model, pos string) {
 		// known finding?
 		for _, f := range findings {
-			if f.Kind == "finding" && f.Property == prop && f.Obligation != "" && strings.HasPrefix(obName, f.Obligation) {
+			if f.Kind == "finding" && f.Property == prop && f.Obligation != "" && strings.HasPrefix(obName, f.Obligation) && !strings.Contains(obName, "~outside-region") {
 				line := fmt.Sprintf("KNOWN-FINDING: property=%s %s [obligation %s]", prop, f.What, obName)
 				knownOut = append(knownOut, line)
 				return
